@@ -121,8 +121,8 @@ Text(x, fmt, prec) == LET t == TextParts(x, fmt, prec) IN t.sign \o t.body
 (* treats floating-point numbers.  fl = [plus, space, zero, minus].        *)
 (***************************************************************************)
 FormatText(x, verb, fl, hasWidth, width, hasPrec, precArg) ==
-  LET v    == CASE verb = "F" -> "f" [] verb = "v" -> "g" [] OTHER -> verb
-      prec == IF hasPrec THEN precArg ELSE IF v \in {"g", "G"} THEN -1 ELSE 6
+  LET v    == CASE verb = "F" -> "f" [] verb \in {"v", "s"} -> "g" [] OTHER -> verb          \* %s: like String (%.10g) unless a precision is given
+      prec == IF hasPrec THEN precArg ELSE IF verb = "s" THEN 10 ELSE IF v \in {"g", "G"} THEN -1 ELSE 6
       t    == TextParts(x, v, prec)
       sign == IF t.sign = "-" THEN "-"
               ELSE IF fl.plus THEN "+" ELSE IF fl.space THEN " "
